@@ -329,6 +329,28 @@ Definition set_fail_on_err (it : iter) (v : bool) : iter :=
   {| rd := rd it; peek_buf := peek_buf it; buf := buf it; fail_on_err := v;
      delims := delims it; is_done := is_done it; stopped_at := stopped_at it |}.
 
+(* the operations a caller can interleave on the iterator, and what each lets the caller observe *)
+Inductive op := OpRead | OpPeek | OpReset | OpStopped | OpFail (b : bool).
+Inductive obs := ORes (r : option rres) | OStop (l : option line) | OUnit.
+
+Definition step (o : op) (it : iter) : outcome (obs * iter) unit :=
+  match o with
+  | OpRead => (r <- read_line it ;; Ok (ORes (fst r), snd r))%outcome
+  | OpPeek => (r <- peek_line it ;; Ok (ORes (fst r), snd r))%outcome
+  | OpReset => Ok (OUnit, iter_reset it)
+  | OpStopped => Ok (OStop (stopped_at it), it)
+  | OpFail b => Ok (OUnit, set_fail_on_err it b)
+  end.
+
+Fixpoint run_ops (ops : list op) (it : iter) : outcome (list obs * iter) unit :=
+  match ops with
+  | [] => Ok ([], it)
+  | o :: ops' =>
+      (r <- step o it ;;
+       r' <- run_ops ops' (snd r) ;;
+       Ok (fst r :: fst r', snd r'))%outcome
+  end.
+
 (* ---- WithSidebands ------------------------------------------------------------------------------ *)
 
 (* the progress handler of the harness: records its calls, answers Interrupt at call number [interrupt_at] *)
